@@ -26,7 +26,7 @@ RULE = (
 )
 ASSUMPTIONS = [
     "which residues are nucleotides is taken from Residue3D.is_nucleotide; one-letter names from the structure",
-    "Saenger values supplied with an entry are consistent with the 28-class table (table value or none)",
+    "Saenger values supplied with an entry are the 28-class table value, none, or XIX on a cWW entry whose letters define no class (as an external tool may report for modified residues)",
 ]
 _tier = ["quick"]
 
@@ -119,6 +119,10 @@ def alphabet(hostname, tier):
                 sa = refann.SAENGER.get((nts[i].one_letter_name + nts[j].one_letter_name, lw))
                 if sa:
                     ents.append((i, j, lw, sa))
+                elif lw == "cWW" and i < j:
+                    # an external tool may classify a pair as Watson-Crick although the letters read from the file do not say so (modified or
+                    # mis-named residues): the supplied Saenger class decides, so this entry is canonical while its class-less twin is not
+                    ents.append((i, j, lw, "XIX"))
     return ents
 
 
